@@ -8,17 +8,20 @@ within the environment's configured range; otherwise compile() raises a
 JSONPathError, unknown function names included, and evaluation is never reached.
 …"
 
-This file proves the *soundness* direction for every query string and every
-registry at once: whatever compile() returns is well-typed (on the AST, for the
-registry's own signature table) and within the integer range — so an ill-typed
-or out-of-range query never yields a query object, hence evaluation is never
-reached.  The completeness direction (every valid query compiles) is decided by
-the oracle search against `Spec.Grammar`/`Spec.validCst` (C03) and is not yet a
-theorem: `C05_partial`.
+`C05_statement`: a string is accepted by compile() iff it is grammatical and valid,
+stated against the independent recogniser and validity rules: (⇐) `C03` — what
+`Spec.judge` calls valid compiles (in `Props/C03.lean`, which imports this file);
+(⇒) `C05_sound`, proved here: whatever compile() accepts, `Spec.judge` calls valid —
+or `disputed` (D28) — for the environment's own signature table, at the level of the
+DERIVATION, so including the rules that depend on parentheses (a parenthesised
+argument is a logical expression) and unknown function names; hence an ill-typed,
+out-of-range or unknown-function query never yields a query object and evaluation is
+never reached.  `C05_partial` is the older AST-level form (kept: other proofs use it).
 -/
 import JPV.Impl.Parse
 import JPV.Spec.Typing
 import JPV.Proofs.ParseTyping
+import JPV.Proofs.SoundValid
 namespace JPV.Props
 open JPV
 
@@ -31,6 +34,24 @@ def C05_sound_statement : Prop :=
     Spec.wtQuery (sigsOfEnv env) q = true ∧ Spec.intsQuery env.minIdx env.maxIdx q = true
 
 theorem C05_partial : C05_sound_statement := Proofs.compile_welltyped
+
+/-- soundness at the level of the derivation, for every environment and every string -/
+theorem C05_sound (env : Impl.Env) (s : Str) (q : Query) (h : Impl.compile env s = .ok q) :
+    ∃ c, (Spec.judge (sigsOfEnv env) env.minIdx env.maxIdx s = (.valid, some c) ∨
+          Spec.judge (sigsOfEnv env) env.minIdx env.maxIdx s = (.disputed, some c)) ∧
+      Spec.abstractSegs c = q :=
+  Proofs.compile_sound_valid env s q h
+
+/-- contrapositive: what the judge calls invalid — ungrammatical, ill-typed, out of range, unknown function —
+makes compile() fail (with a JSONPathError: `C13_compile`), for any registry -/
+theorem C05_invalid_rejected (env : Impl.Env) (s : Str)
+    (hinv : (Spec.judge (sigsOfEnv env) env.minIdx env.maxIdx s).1 = .invalid) :
+    ∃ e, Impl.compile env s = .error e := by
+  cases hc : Impl.compile env s with
+  | error e => exact ⟨e, rfl⟩
+  | ok q =>
+    obtain ⟨c, hj, _⟩ := C05_sound env s q hc
+    rcases hj with hj | hj <;> rw [hj] at hinv <;> cases hinv
 
 /-- the per-argument check of `check_well_typedness` is the RFC rule, for every
 parameter type, on expressions the parser can have built (`Proofs.Built`) -/
